@@ -25,6 +25,7 @@ package backoff
 import (
 	"context"
 	"errors"
+	"math"
 	rand "math/rand/v2"
 	"time"
 
@@ -68,7 +69,12 @@ func (bc Exponential) Backoff(retries int) time.Duration {
 	// Randomize backoff delays so that if a cluster of requests start at
 	// the same time, they won't operate in lockstep.
 	backoff *= 1 + bc.Config.Jitter*(rand.Float64()*2-1)
-	if backoff < 0 {
+	if backoff >= math.MaxInt64 {
+		// Saturate: converting a float64 that does not fit in an int64 is
+		// implementation-defined and yields a negative duration on amd64.
+		return math.MaxInt64
+	}
+	if !(backoff > 0) { // negative or NaN
 		return 0
 	}
 	return time.Duration(backoff)
